@@ -1,0 +1,1 @@
+//! Verification facade: `tuple` (feature `verif`).
